@@ -548,8 +548,20 @@ def literal_unit(plan):
             while frag[k] in " \t\r\n":
                 k += 1
             frag = frag[:m.start()] + "return None" + frag[k:]
-        frag = re.sub(r"\bstd::mem::discriminant\(", "discriminant_of(", frag)
-        frag, n = re.subn(r"for\s+el\s+in\s+&elements\s*\{", "for k_ in 0..elements.len()\n    invariant forall|j: int| 0 <= j < k_ ==> ValueKind::K(kind_of(#[trigger] elements@[j].id)) == element_kind,\n  { let el = &elements[k_];", frag)
+        # std::mem::discriminant(X) -> (X).variant_()  (the variant only: of a kind, or of a value)
+        while True:
+            m = re.search(r"\bstd::mem::discriminant\(", frag)
+            if not m:
+                break
+            e = match_brace(frag, m.end() - 1, "(", ")")
+            frag = frag[:m.start()] + "(" + frag[m.end():e - 1] + ").variant_()" + frag[e:]
+        # the check loop: `for el in &elements` / `elements.iter()` / `elements.iter().skip(N)` -> index `while` from N (a `while`, because a body may `continue`)
+        def hdr(mm):
+            start = mm.group(1) or "0"
+            return ("let mut k_: usize = %s;\n  while k_ < elements.len()\n"
+                    "    invariant k_ <= elements@.len() || elements@.len() < %s, forall|j: int| 0 <= j < k_ && j < elements@.len() ==> ValueKind::K(kind_of(#[trigger] elements@[j].id)) == element_kind,\n"
+                    "    decreases elements@.len() - k_,\n  { let el = &elements[k_]; k_ += 1;" % (start, start))
+        frag, n = re.subn(r"for\s+el\s+in\s+(?:&elements|elements\.iter\(\)(?:\.skip\((\d+)\))?)\s*\{", hdr, frag)
         if n != 1 or "Err(" in frag:
             raise AnchorLost("set(): the kind-check loop `for el in &elements` not found")
     except AnchorLost as e:
@@ -563,7 +575,12 @@ def literal_unit(plan):
   Some(())
 }
 """ % frag.strip()
-    items = [SET_PRELUDE, fn, vlib.verus_canary("canary_lit", "x: u64", [])]
+    VARIANTS = """
+pub uninterp spec fn variant_of(id: int) -> u64;          // which Value variant an element is (std::mem::discriminant)
+impl Value { #[verifier::external_body] pub fn variant_(&self) -> (r: u64) ensures r == variant_of(self.id) { unimplemented!() } }
+impl ValueKind { #[verifier::external_body] pub fn variant_(&self) -> (r: u64) ensures r == (match self { ValueKind::Empty => 0u64, ValueKind::K(_) => 1u64 }) { unimplemented!() } }
+"""
+    items = [SET_PRELUDE, VARIANTS, fn, vlib.verus_canary("canary_lit", "x: u64", [])]
     plan.verus.append(VerusUnit("c14_literal", vlib.verus_file(items), {"set_kind_check": name}, ["canary_lit"]))
     plan.dropped.append(literal_unit.__doc__.strip())
 
